@@ -175,7 +175,9 @@ class Concat(Enc):
             k = r.randint(2, min(5, len(p)))
             cuts = sorted(r.sample(range(1, len(p)), k - 1))
             parts = [p[a:b] for a, b in zip([0] + cuts, cuts + [len(p)])]
-            if all(not_operator(x) for x in parts):
+            # a literal that reads as a quoted cmd token ("cmd", "cmd.exe") would make the raw text a cmd result that
+            # swallows the whole expression: outside the neutral-surroundings domain
+            if all(not_operator(x) for x in parts) and not any(re.fullmatch(rb"(?i)(?:C:\\WINDOWS\\system32\\)?cmd(?:.exe)?", x) for x in parts):
                 break
         else:
             return None
